@@ -53,6 +53,30 @@ Theorem C01_dyson_two_step :
     ring_eq (mul (add (add w0 d1) d2) (mul u2 (mul u1 g0))) ring1.
 Proof. intros R r0' r1' a m s o e Ro Rr. exact (@dyson_two_step R r0' r1' a m s o e Ro Rr). Qed.
 
+(* Origin-state correction (crystals whose sites carry a site vector basis; fix b4a4433 of Lij step 5b).  With G = ai g0 the Dyson
+   Green function, nT / n the null vectors of the bare rate matrix and c their coefficients, the corrector
+   eta = G (b - dw nT c) + nT c solves eta = g0 (b - dw eta) + nT c, and with c = s (n b - n dw G b), s a right inverse of
+   n dw nT - n dw G dw nT, no net flux leaves through the null vectors: n (b - dw eta) = 0.  Any unital ring. *)
+Theorem C01_originstate_integral_equation :
+  forall (R : Type) (ring0 ring1 : R) (add mul sub : R -> R -> R) (opp : R -> R) (ring_eq : R -> R -> Prop)
+         (Ro : Ring_ops (T:=R) (ring0:=ring0) (ring1:=ring1) (add:=add) (mul:=mul) (sub:=sub) (opp:=opp) (ring_eq:=ring_eq))
+         (Rr : Ring (Ro:=Ro)) (g0 dw ai nT b c : R),
+    ring_eq (mul (add ring1 (mul g0 dw)) ai) ring1 ->
+    let eta := add (mul (mul ai g0) (sub b (mul (mul dw nT) c))) (mul nT c) in
+    ring_eq eta (add (mul g0 (sub b (mul dw eta))) (mul nT c)).
+Proof. intros R r0' r1' a m s o e Ro Rr. exact (@originstate_integral_equation R r0' r1' a m s o e Ro Rr). Qed.
+
+Theorem C01_originstate_no_flux :
+  forall (R : Type) (ring0 ring1 : R) (add mul sub : R -> R -> R) (opp : R -> R) (ring_eq : R -> R -> Prop)
+         (Ro : Ring_ops (T:=R) (ring0:=ring0) (ring1:=ring1) (add:=add) (mul:=mul) (sub:=sub) (opp:=opp) (ring_eq:=ring_eq))
+         (Rr : Ring (Ro:=Ro)) (g0 dw ai n nT b s : R),
+    let G := mul ai g0 in let u := mul dw nT in let uT := mul n dw in
+    ring_eq (mul (sub (mul n u) (mul (mul uT G) u)) s) ring1 ->
+    let c := mul s (sub (mul n b) (mul (mul uT G) b)) in
+    let eta := add (mul G (sub b (mul u c))) (mul nT c) in
+    ring_eq (mul n (sub b (mul dw eta))) ring0.
+Proof. intros R r0' r1' a m s o e Ro Rr. exact (@originstate_no_flux R r0' r1' a m s o e Ro Rr). Qed.
+
 Goal True. idtac "ASSUMPTIONS-OF C01_chain_coefficients_welldefined". Abort.
 Print Assumptions C01_chain_coefficients_welldefined.
 Goal True. idtac "ASSUMPTIONS-OF C01_checker_sound". Abort.
@@ -63,3 +87,7 @@ Goal True. idtac "ASSUMPTIONS-OF C01_dyson_inverse". Abort.
 Print Assumptions C01_dyson_inverse.
 Goal True. idtac "ASSUMPTIONS-OF C01_dyson_two_step". Abort.
 Print Assumptions C01_dyson_two_step.
+Goal True. idtac "ASSUMPTIONS-OF C01_originstate_integral_equation". Abort.
+Print Assumptions C01_originstate_integral_equation.
+Goal True. idtac "ASSUMPTIONS-OF C01_originstate_no_flux". Abort.
+Print Assumptions C01_originstate_no_flux.
